@@ -111,8 +111,13 @@ class Report:
     def finish(self, partial: bool = False) -> int:
         known = [k for k in load_known() if k["property"] == self.pid]
         # vacuity / liveness
+        has_new = bool(self.new_findings())
         for rid, r in ({} if partial else self.rules).items():
             if r["instances"] < r["floor"]:
+                if has_new:
+                    # a rule that matched too little gives no verdict of its own, but violations decided elsewhere stand
+                    self.notes.append("rule %s matched %d instances, below its floor %d (no verdict from this rule)" % (rid, r["instances"], r["floor"]))
+                    continue
                 raise AnalysisError("rule %s matched %d instances, below the floor %d confirmed by hand "
                                     "(the extractor no longer recognises the code)"
                                     % (rid, r["instances"], r["floor"]))
